@@ -18,7 +18,7 @@ POOL_ASSUME = COMMON_ASSUME + [
 PROPS = {
     "C13": dict(kind="harness", pkg="./mesim", test="TestC13",
                 quick=dict(checks=3000, shards=4, env={"VERIF_EXH_DEPTH": "4"}, timeout=600),
-                thorough=dict(checks=150000, shards=16, env={"VERIF_EXH_DEPTH": "5"}, timeout=3000),
+                thorough=dict(checks=400000, shards=16, env={"VERIF_EXH_DEPTH": "5"}, timeout=3300),
                 rule="rapid state-machine histories (1-40 ops: availability reports incl. unknown endpoints, list replacements incl. "
                      "empty/duplicate/reorder/remove/re-add, clock advances to timer boundaries +-1ns, timer firing in generated orders) over "
                      "(R,D) in {0,5,50}x{0,3,5,50,80} plus a bounded-exhaustive enumeration (exhaustive.depth ops over 3 endpoints, 25-op alphabet, 7 configs) "
@@ -27,7 +27,7 @@ PROPS = {
                 assume=COMMON_ASSUME + ["package clock replaced through the package's own timeNow/timeAfterFunc test variables; timer callbacks run synchronously on the harness goroutine"]),
     "C14": dict(kind="harness", pkg="./mesim", test="TestC14",
                 quick=dict(checks=3000, shards=4, env={"VERIF_EXH_DEPTH": "4"}, timeout=600),
-                thorough=dict(checks=150000, shards=16, env={"VERIF_EXH_DEPTH": "5"}, timeout=3000),
+                thorough=dict(checks=400000, shards=16, env={"VERIF_EXH_DEPTH": "5"}, timeout=3300),
                 rule="same generator and enumerator as C13, oracles: recovering current endpoint kept while no higher-priority endpoint is available, "
                      "no move away from a usable current endpoint inside the call that made a better one available (D>0), never from an available endpoint to a lower-priority one "
                      "(checked after every op and after every single timer callback), convergence to the top available endpoint after quiescence; "
